@@ -76,13 +76,15 @@ class Problem:
         self.v = rng.standard_normal((nv, *self.grid.shape_cells))
         if nv == 1:
             self.v = self.v[0]
-        self.obs = None
-        self.oracle = {}
+        self.obs = None          # observed data the survey comes with (0)
+        self.obs_codes = {}      # code -> observed data (m+1: synthetic of m)
+        self.oracle = {}         # per model: what does not depend on d_obs
+        self.oracle_d = {}       # per (model, code): misfit, residual, ...
 
     def model(self, m):
         return emg3d.Model(self.grid, mapping='Conductivity', **self.models[m])
 
-    def survey(self):
+    def survey(self, code=0):
         src = {k: emg3d.TxElectricDipole(v) for k, v in self.src.items()}
         rec = {'RxEP-1': emg3d.RxElectricPoint((100, 50, 0, 0, 0)),
                'RxMP-2': emg3d.RxMagneticPoint((-100, 50, 20, 45, 0)),
@@ -90,8 +92,9 @@ class Problem:
                                                relative=True)}
         s = emg3d.Survey(src, rec, self.freqs, noise_floor=1e-16,
                          relative_error=0.05)
-        if self.obs is not None:
-            s.data['observed'][...] = self.obs
+        obs = self.obs if code == 0 else self.obs_codes[code]
+        if obs is not None:
+            s.data['observed'][...] = obs
         return s
 
     def comp_grids(self):
@@ -102,7 +105,7 @@ class Problem:
         return [emg3d.TensorMesh([h(a, 900.), h(b, 1000.), h(c, 900.)],
                                  (-450, -500, -450)) for a, b, c in gs]
 
-    def simulation(self, m, file_dir=None, gmode=None):
+    def simulation(self, m, file_dir=None, gmode=None, code=0):
         gmode = gmode or self.variant.get("gmode", "same")
         kw = {}
         if gmode == 'input':
@@ -120,13 +123,13 @@ class Problem:
         else:
             kw = dict(gridding='same')
         return emg3d.Simulation(
-            self.survey(), self.model(m), max_workers=1, **kw,
+            self.survey(code), self.model(m), max_workers=1, **kw,
             receiver_interpolation='linear',
             solver_opts={'plain': True, 'tol': 1e-5, 'tol_gradient': 1e-4,
                          'maxit': 30},
             file_dir=file_dir, tqdm_opts={'disable': True})
 
-    def prepare(self):
+    def prepare(self, oracles=True):
         """Observed data (from a 'true' model) and fresh results per model."""
         true = emg3d.Model(self.grid, mapping='Conductivity',
                            property_x=np.full(self.grid.shape_cells, 1.3))
@@ -138,25 +141,36 @@ class Problem:
         obs = s.data.synthetic.data.copy()
         obs[0, 1, 0] = np.nan        # a gap in the data
         self.obs = obs
+        self.obs_codes = {0: obs}
+        if not oracles:
+            return self
         for m in range(3):
             o = {}
             a = self.simulation(m)
-            o["misfit"] = float(a.misfit)
+            a.compute()
             o["syn"] = a.data.synthetic.data.copy()
-            o["res"] = a.data.residual.data.copy()
-            o["weights"] = a.data.weights.data.copy()
             o["efield"] = {p: a.get_efield(*sf).field.copy()
                            for p, sf in self.pairs.items()}
             o["hfield"] = {p: a.get_hfield(*sf).field.copy()
                            for p, sf in self.pairs.items()}
-            b = self.simulation(m)
-            o["gradient"] = np.array(b.gradient).copy()
             c = self.simulation(m)
             o["jvec"] = np.array(c.jvec(self.v)).copy()
-            d = self.simulation(m)
-            _ = d.misfit
-            o["jtvec"] = np.array(d.jtvec(self.w)).copy()
             self.oracle[m] = o
+            self.obs_codes[m+1] = o["syn"].copy()
+        # everything that compares synthetic with observed data, for every
+        # model and every observed data set the histories can produce
+        for m in range(3):
+            for code in range(4):
+                o = {}
+                a = self.simulation(m, code=code)
+                o["misfit"] = float(a.misfit)
+                o["res"] = a.data.residual.data.copy()
+                o["weights"] = a.data.weights.data.copy()
+                o["gradient"] = np.array(a.gradient).copy()
+                d = self.simulation(m, code=code)
+                _ = d.misfit
+                o["jtvec"] = np.array(d.jtvec(self.w)).copy()
+                self.oracle_d[(m, code)] = o
         return self
 
 
@@ -182,6 +196,9 @@ class World:
         try:
             if op == "compute":
                 sim.compute()
+                return "none", None
+            if op == "compute_obs":
+                sim.compute(observed=True, add_noise=False)
                 return "none", None
             if op == "misfit":
                 return "value", float(sim.misfit)
@@ -221,17 +238,53 @@ class World:
         raise ValueError(f"unknown op {op}")
 
     # ---- which model was this computed for -----------------------------
-    def match(self, val, key, p=None):
-        for m, o in self.p.oracle.items():
+    def match(self, val, key, p=None, hint=None):
+        """Model id the value was computed for (quantities independent of the
+        observed data).  `hint`: the spec's prediction is tried first."""
+        cand = list(self.p.oracle)
+        if hint in self.p.oracle:
+            cand = [hint] + [m for m in cand if m != hint]
+        for m in cand:
+            o = self.p.oracle[m]
             ref = o[key] if p is None else o[key][p]
             if rel(val, ref) < RTOL:
                 return m
         return UNKNOWN
 
-    def project(self, o):
+    def match_d(self, val, key, hint=None):
+        """DP code m + 10*code of a quantity that depends on model and
+        observed data; several (m, code) can give the same value (d_obs =
+        own synthetic data: zero residual), so the spec's prediction is
+        tried first."""
+        cand = list(self.p.oracle_d)
+        if isinstance(hint, int) and hint >= 0 and \
+                (hint % 10, hint // 10) in self.p.oracle_d:
+            h = (hint % 10, hint // 10)
+            cand = [h] + [c for c in cand if c != h]
+        for m, code in cand:
+            if rel(val, self.p.oracle_d[(m, code)][key]) < RTOL:
+                return m + 10*code
+        return UNKNOWN
+
+    def obs_code(self, sim, hint=None):
+        obs = sim.data.observed.data
+        cand = list(self.p.obs_codes)
+        if hint in self.p.obs_codes:
+            cand = [hint] + [c for c in cand if c != hint]
+        for c in cand:
+            if np.array_equal(obs, self.p.obs_codes[c], equal_nan=True) or \
+                    rel(obs, self.p.obs_codes[c]) < RTOL:
+                return c
+        return UNKNOWN
+
+    def project(self, o, hint=None):
+        """hint: the spec's record of this object (tried first where a value
+        does not identify its provenance uniquely)."""
         sim = self.sims[o]
         P = self.p
+        hint = hint or {}
         out = {}
+        out["ob"] = self.obs_code(sim, hint.get("ob"))
         mv = UNKNOWN
         for m in P.models:
             if np.array_equal(sim.model.property_x, P.models[m]["property_x"]):
@@ -269,15 +322,25 @@ class World:
                 syn.append(k)
         out["ef"], out["econt"], out["syn"] = tuple(ef), tuple(econt), tuple(syn)
         out["comp"] = bool(sim._computed)
-        out["mis"] = NONE if sim._misfit is None else self.match(
-            float(sim._misfit), "misfit")
-        out["w"] = 'weights' in sim.data.keys()
+        out["mis"] = NONE if sim._misfit is None else self.match_d(
+            float(sim._misfit), "misfit", hint.get("mis"))
+        if 'weights' not in sim.data.keys():
+            out["w"] = NONE
+        else:
+            out["w"] = UNKNOWN
+            wd = sim.data.weights.data
+            hw = hint.get("w")
+            for c in ([hw] if hw in P.obs_codes else []) + list(P.obs_codes):
+                # weights depend on |d_obs| only
+                if rel(wd, P.oracle_d[(0, c)]["weights"]) < RTOL:
+                    out["w"] = c
+                    break
         if 'residual' not in sim.data.keys():
             out["res"] = NONE
         else:
             r = sim.data.residual.data
-            k = self.match(r, "res")
-            if k == UNKNOWN and out["w"]:
+            k = self.match_d(r, "res", hint.get("res"))
+            if k == UNKNOWN and out["w"] != NONE:
                 with np.errstate(invalid='ignore'):
                     if rel(r, P.w/sim.data.weights.data) < RTOL:
                         k = VEC
@@ -286,12 +349,16 @@ class World:
         if g is None:
             out["grad"] = (NONE, NONE)
         else:
-            k = self.match(np.array(g), "gradient")
+            hg = tuple(hint.get("grad", (NONE, NONE)))
+            k = self.match_d(np.array(g), "gradient",
+                             hg[1] if hg[1] >= 0 else None)
             if k != UNKNOWN:
-                out["grad"] = (k, k)
+                out["grad"] = (k % 10, k)
             else:
-                k = self.match(np.array(g), "jtvec")
-                out["grad"] = (k, VEC) if k != UNKNOWN else (UNKNOWN, UNKNOWN)
+                k = self.match_d(np.array(g), "jtvec",
+                                 hg[0] + 10*out["ob"] if hg[0] >= 0 else None)
+                out["grad"] = (k % 10, VEC) if k != UNKNOWN else (
+                    UNKNOWN, UNKNOWN)
         has_b = hasattr(sim, "_dict_bfield") and any(
             v is not None for d in sim._dict_bfield.values()
             for v in d.values())
@@ -317,12 +384,13 @@ class World:
             if sim is None:
                 diffs.append(f"obj{o}: exists in spec, not in code")
                 continue
-            pr = self.project(o)
+            pr = self.project(o, r)
             exp_econt = tuple(
                 (files[r["dir"]-1]["e"][i] if r["ef"][i] == FILE
                  else r["ef"][i]) for i in range(len(r["ef"])))
             for k, sv in (("mv", r["mv"]), ("ef", tuple(r["ef"])),
                           ("econt", exp_econt), ("syn", tuple(r["syn"])),
+                          ("ob", r["ob"]),
                           ("comp", r["comp"]), ("mis", r["mis"]),
                           ("w", r["w"]), ("res", r["res"]),
                           ("grad", tuple(r["grad"])),
@@ -332,26 +400,40 @@ class World:
                     diffs.append(f"obj{o}.{k}: spec {sv} code {pr[k]}")
         return diffs
 
-    def compare_ret(self, last, kind, val):
-        """Returned value vs what the spec predicts (by provenance)."""
+    def compare_ret(self, last, kind, val, ob=0):
+        """Returned value vs what the spec predicts (by provenance).  `ob`:
+        observed data of the object according to the spec (jtvec skips the
+        receivers without data)."""
         if last["kind"] != kind:
             return (f"spec predicts {last['kind']} for {last['op']}, code "
                     f"gave {kind} ({val if kind == 'error' else ''})")
         if kind != "value":
             return None
         op, prov = last["op"], last["prov"]
-        orc = self.p.oracle
-        if op in ("misfit", "jvec"):
+        orc, ord_ = self.p.oracle, self.p.oracle_d
+        if op == "jvec":
             if prov not in orc:
                 return f"{op}: spec provenance {prov} has no oracle"
             d = rel(val, orc[prov][op])
+        elif op == "misfit":
+            if prov < 0 or (prov % 10, prov // 10) not in ord_:
+                return f"{op}: spec provenance {prov} has no oracle"
+            d = rel(val, ord_[(prov % 10, prov // 10)][op])
         elif op in ("efield", "hfield"):
             d = rel(val, orc[prov][op][int(last["arg"])])
-        elif op in ("gradient", "jtvec"):
+        elif op == "jtvec":
             e, drv = prov
-            if e != drv and drv != VEC:
+            if drv != VEC or (e, ob) not in ord_:
+                return f"{op}: provenance {prov} has no oracle"
+            d = rel(val, ord_[(e, ob)]["jtvec"])
+        elif op == "gradient":
+            e, drv = prov
+            if drv == VEC:
+                d = rel(val, ord_[(e, ob)]["jtvec"])
+            elif drv < 0 or drv % 10 != e or (e, drv // 10) not in ord_:
                 return f"{op}: mixed provenance {prov}"
-            d = rel(val, orc[e]["jtvec" if drv == VEC else "gradient"])
+            else:
+                d = rel(val, ord_[(e, drv // 10)]["gradient"])
         else:
             return None
         if d >= RTOL:
@@ -363,11 +445,14 @@ class World:
 def fresh_prov(state, last):
     """What a fresh simulation would report (Fresh(o, op) of the spec)."""
     mv = state["S"][last["obj"]-1]["mv"]
+    ob = state["S"][last["obj"]-1]["ob"]
     op = last["op"]
     if op == "gradient":
-        return (mv, mv)
+        return (mv, mv + 10*ob)
     if op == "jtvec":
         return (mv, VEC)
+    if op == "misfit":
+        return mv + 10*ob
     return mv
 
 
@@ -378,6 +463,7 @@ def incoherent(state):
         if not r["ex"]:
             continue
         mv = r["mv"]
+        dp = mv + 10*r["ob"]
         for i in range(len(r["ef"])):
             e = files[r["dir"]-1]["e"][i] if r["ef"][i] == FILE else r["ef"][i]
             if e not in (NONE, mv):
@@ -386,12 +472,16 @@ def incoherent(state):
                         f" (its model is {mv})")
             if r["syn"][i] not in (NONE, mv):
                 return f"object {o}: synthetic data of model {r['syn'][i]}"
-        if r["mis"] not in (NONE, mv):
-            return f"object {o}: cached misfit of model {r['mis']}"
-        if tuple(r["grad"]) not in ((NONE, NONE), (mv, mv)):
+        if r["mis"] not in (NONE, dp):
+            return (f"object {o}: cached misfit {r['mis']} (model + 10 x "
+                    f"observed data), current is {dp}")
+        if tuple(r["grad"]) not in ((NONE, NONE), (mv, dp)):
             return f"object {o}: gradient cache holds {tuple(r['grad'])}"
-        if r["res"] not in (NONE, mv):
+        if r["res"] not in (NONE, dp):
             return f"object {o}: data.residual holds {r['res']}"
+        if r["w"] not in (NONE, r["ob"]):
+            return (f"object {o}: data weights of observed data {r['w']}, "
+                    f"current observed data {r['ob']}")
     return None
 
 
@@ -405,7 +495,8 @@ def replay(prob, file_mode, steps, seed):
         for i, st in enumerate(steps):
             last = st["last"]
             kind, val = w.apply(last)
-            msg = w.compare_ret(last, kind, val)
+            ob = st["S"][last["obj"]-1]["ob"] if last["obj"] else 0
+            msg = w.compare_ret(last, kind, val, ob)
             if msg:
                 probs.append((i, "ret", msg))
                 break
